@@ -1,8 +1,7 @@
 // U-FCALL: trusted text (std specs, opaque third-party types, derive-generated code).  Everything else of the unit is sliced.
 // vstd's model of std::collections::HashMap (u32 keys obey the hash-table key model; axioms of vstd, not ours)
 use std::collections::HashMap;
-broadcast use vstd::std_specs::hash::group_hash_axioms;
-broadcast use vstd::std_specs::vec::axiom_vec_index_decreases;
+broadcast use {vstd::std_specs::hash::group_hash_axioms, vstd::std_specs::vec::axiom_vec_index_decreases};
 // opaque third party: enumset::EnumSet<DeclarationFlag> is only moved by this file
 #[verifier::external_body] pub struct DeclarationFlag { _p: u8 }
 #[verifier::external_body] #[verifier::accept_recursive_types(T)] pub struct EnumSet<T> { _p: core::marker::PhantomData<T> }
@@ -16,3 +15,6 @@ pub assume_specification<T: Clone, E: Clone>[ <Result<T, E> as Clone>::clone ](a
 		a is Err ==> r is Err && cloned::<E>(a->Err_0, r->Err_0);
 // trusted: #[derive(Clone)] of common::Parameter is the identity
 impl Clone for Parameter { #[verifier::external_body] fn clone(&self) -> (r: Self) ensures r == *self { unimplemented!() } }
+// Assumed std spec (trusted; same text as prelude/ast_opaque.rs): [T]::reverse (introduced by rule R1)
+pub assume_specification<T>[ <[T]>::reverse ](s: &mut [T])
+	ensures final(s)@ == old(s)@.reverse();
